@@ -443,32 +443,33 @@ pub fn oracle_c02_live(si: &ScriptInfo, tr: &Trace, clause: &str) -> Option<Viol
 pub fn oracle_c11(si: &ScriptInfo, tr: &Trace, probe_round: usize) -> Vec<Violation> {
     let mut out = Vec::new();
     let what = format!("fault: blackout {:?} shift {:?}, last deviation in round {}", tr.blackout, tr.shift, tr.last_dev_round);
-    for (i, o) in si.ops.iter().enumerate() {
-        if let OpKind::Send { mode, ch, size } = o.kind {
-            let must = mode == SendMode::Reliable || (o.round >= probe_round && mode != SendMode::TimeSensitive);
-            if !must { continue; }
-            let n = tr.dels.iter().filter(|d| d.side == 1 - o.side && d.sub == Some(i)).count();
-            if n != 1 {
-                let last = tr.obs.last().unwrap();
-                let sender = tr.obs.iter().filter(|x| x.side == o.side).last().unwrap();
-                let sig = format!("C11.live:{}", if o.round >= probe_round { "probe-undelivered" } else { "reliable-undelivered" });
-                if !out.iter().any(|v: &Violation| v.sig == sig) {
-                    out.push(viol("C11.live", sig, format!("{:?} packet ch{} {} B submitted in round {} was delivered {} times by the horizon (t={} ms, {} rounds); sender rate {} B/s, rtt {:?}, pending {}; {}", mode, ch, size, o.round, n, last.t_ms, tr.rounds, sender.probe.send_rate, sender.rtt, sender.pending, what)));
+    let last = tr.obs.last().unwrap();
+    for side in 0..2 {
+        // backlog of this sender when the probes are submitted, and what it has got rid of by the horizon
+        let at_probe = match tr.obs.iter().filter(|x| x.side == side && x.round >= probe_round + 6).next() { Some(o) => o, None => continue };
+        let end = tr.obs.iter().filter(|x| x.side == side).last().unwrap();
+        let elapsed_s = (end.t_ms - at_probe.t_ms) as f64 / 1000.0;
+        let done = at_probe.sbs as i64 - end.sbs as i64;
+        // With little queued ahead of them the probes must all arrive: at the minimum rate of s/64 = 23 B/s, T_live moves
+        // about 6.9 kB; half of that is demanded. With more queued (data from before the fault is still waiting and TFRC may
+        // legitimately crawl), the sender must at least have moved half of what the minimum rate allows.
+        let small_backlog = (at_probe.sbs as f64) <= 0.5 * 23.0 * elapsed_s;
+        for (i, o) in si.ops.iter().enumerate().filter(|(_, o)| o.side == side) {
+            if let OpKind::Send { mode, ch, size } = o.kind {
+                let is_probe = o.round >= probe_round && mode != SendMode::TimeSensitive;
+                let must = small_backlog && (mode == SendMode::Reliable || is_probe);
+                if !must { continue; }
+                let n = tr.dels.iter().filter(|d| d.side == 1 - side && d.sub == Some(i)).count();
+                if n != 1 {
+                    let sig = format!("C11.live:{}", if is_probe { "probe-undelivered" } else { "reliable-undelivered" });
+                    if !out.iter().any(|v: &Violation| v.sig == sig) {
+                        out.push(viol("C11.live", sig, format!("{:?} packet ch{} {} B submitted in round {} was delivered {} times by the horizon (t={} ms, {} rounds) although only {} B were queued when the probes were submitted; sender rate {} B/s, rtt {:?}, pending {}; {}", mode, ch, size, o.round, n, last.t_ms, tr.rounds, at_probe.sbs, end.probe.send_rate, end.rtt, end.pending, what)));
+                    }
                 }
             }
         }
-    }
-    // Data may legitimately still be in flight at the horizon (TFRC recovers slowly when both
-    // directions carry data), but a sender that has made no progress at all since the probes were
-    // submitted is stalled.
-    let n = tr.obs.len();
-    for o in &tr.obs[n - 2..] {
-        if !(o.pending || o.sbs != 0) { continue; }
-        let at_probe = tr.obs.iter().filter(|x| x.side == o.side && x.round >= probe_round + 6).next();
-        if let Some(p) = at_probe {
-            if tr.rounds > probe_round + 1000 && o.sbs >= p.sbs && o.probe.tx_packet_base == p.probe.tx_packet_base && o.probe.tx_frame_next == p.probe.tx_frame_next {
-                out.push(viol("C11.live", "C11.live:no-progress".into(), format!("side {} has made no progress between the probes (t={} ms) and the horizon (t={} ms): send_buffer_size {}, no frame sent, rate {} B/s; {}", o.side, p.t_ms, o.t_ms, o.sbs, o.probe.send_rate, what)));
-            }
+        if !small_backlog && tr.rounds > probe_round + 1000 && (done as f64) < 0.5 * 23.0 * elapsed_s {
+            out.push(viol("C11.live", "C11.live:no-progress".into(), format!("side {} had {} B queued when the probes were submitted (t={} ms) and still has {} B at the horizon (t={} ms): {} B in {:.0} s is less than half of what the minimum rate s/64 = 23 B/s moves; rate {} B/s; {}", side, at_probe.sbs, at_probe.t_ms, end.sbs, end.t_ms, done, elapsed_s, end.probe.send_rate, what)));
         }
     }
     out
@@ -567,7 +568,7 @@ pub fn oracle_c13(cfg: &LwCfg, tr: &Trace) -> Option<Violation> {
                 bytes += ems[j].len;
                 while rr <= ems[j].round { if rtt_round[rr] > rtt_max { rtt_max = rtt_round[rr]; } if step_round[rr] { steps += 1; } rr += 1; }
                 let dt = (ems[j].t_ms - ems[i].t_ms) as f64 / 1000.0;
-                let bound = c * (dt + rtt_max) + 1472.0 + steps as f64 + 1.0;
+                let bound = c * (dt + rtt_max) + 1472.0 + 1.0 + if std::env::var("VERIF_C13_SLACK").is_ok() { steps as f64 } else { 0.0 };
                 if bytes as f64 > bound {
                     let excess = bytes as f64 - bound;
                     let after_gap = i > 0 && false;
